@@ -1028,13 +1028,20 @@ fn replay_room_node_write_event(sc: &Value) -> Value {
         let res: Result<()> = if sc["result"].as_str().unwrap() == "Ok" { Ok(()) } else { Err(Error::DatabaseWrite("verif".to_string())) };
         let msg = AuthorisationMessage::RoomNodeWrite(res, RoomNodeWriteQuery { room: rn, reply });
         AuthorisationService::process_message(msg, &mut auth, &writer, &events, &self_sender).await;
-        tokio::time::sleep(std::time::Duration::from_millis(50)).await;
+        // no wall clock: process_message hands its events to the EventService inline, the service forwards its queue in order,
+        // so everything announced by the message has been received once a marker event sent afterwards arrives
+        events.notify(crate::event_service::EventServiceMessage::PendingHardware()).await;
         let mut announced = 0;
         let mut announced_is_stored = true;
-        while let Ok(e) = sub.try_recv() {
-            if let crate::event_service::Event::RoomModified(r) = e {
-                announced += 1;
-                announced_is_stored &= format!("{:?}", r) == format!("{:?}", expected);
+        loop {
+            match tokio::time::timeout(std::time::Duration::from_secs(60), sub.recv()).await {
+                Ok(Ok(crate::event_service::Event::RoomModified(r))) => {
+                    announced += 1;
+                    announced_is_stored &= format!("{:?}", r) == format!("{:?}", expected);
+                }
+                Ok(Ok(crate::event_service::Event::PendingHardware())) => break,
+                Ok(Ok(_)) => {}
+                _ => return json!({"status": "stuck", "detail": "the marker event never arrived"}),
             }
         }
         let registered = auth.rooms.get(&rid).map(|r| format!("{:?}", r) == format!("{:?}", expected)).unwrap_or(false);
